@@ -445,6 +445,7 @@ type frame struct {
 	parent    *frame           // inlined frames: the frame of the caller
 	callBlock *ssa.BasicBlock  // and the block of the call instruction
 	priv      []privCell       // cells of locals that only this function writes (see privateCell)
+	callBindings []Val         // captured cells of the closure being called (consumed by applyContract)
 }
 
 // privCell: the heap cell of a local variable of the function under verification whose address is
